@@ -77,6 +77,31 @@ struct Sweeper
             // step back from end
             auto e = v.end();
             for (int t = 0; t < 3 && t < w * hh; ++t) { --e; value_t p(*e); (void)p; }
+            // negative and positive random-access moves, in particular by whole rows (landing on column 0 of another row)
+            std::ptrdiff_t const size = w * hh;
+            std::ptrdiff_t const back[] = {1, w, 2 * w, size, size - w, (std::ptrdiff_t)r.below((uint64_t)size) + 1, (hh / 2) * w};
+            for (std::ptrdiff_t n : back)
+            {
+                if (n < 1 || n > size) continue;
+                auto it = v.end() - n;                       // position size-n
+                value_t p(*it); *it = p;
+                auto jt = v.end(); jt -= n;
+                if (jt != it) h->u64(0xBAD1);
+                if (v.end() - it != n) h->u64(0xBAD2);
+                std::ptrdiff_t m = (size - n);               // it[-m] is begin()
+                value_t q(it[-m]); (void)q;
+                if (m >= w) { value_t q2(it[-w]); (void)q2; auto kt = it; kt += -w; value_t q3(*kt); (void)q3; }
+                auto ft = v.begin() + (size - n);
+                if (ft != it) h->u64(0xBAD3);
+                value_t q4(*ft); (void)q4;
+            }
+            for (std::ptrdiff_t row = 0; row < hh; ++row)
+            {
+                auto it = v.begin() + row * w;               // first pixel of every row through the 1-D iterator
+                value_t p(*it); (void)p;
+                auto lt = v.begin() + (row * w + w - 1);     // last pixel of every row
+                value_t q(*lt); (void)q;
+            }
         }
         if (families & 8u) // locator walk + cached locations
         {
@@ -138,6 +163,8 @@ void sweep_algorithms(W const& v, S const& scratch, uint64_t val, SweepStats* st
     long n = 0;
     gil::for_each_pixel(v, [&n](typename W::reference) { ++n; });
     h->u64((uint64_t)n);
+    gil::transform_pixels(v, scratch, [](typename W::const_t::reference p) { return value_t(p); });
+    gil::transform_pixels(scratch, v, [](typename S::const_t::reference p) { return value_t(p); });
 }
 
 // ---- run-time composition of view transformations on the closed step-view type V
